@@ -379,7 +379,7 @@ def run(ctx):
     ncorpus = len(hists)
     hists += scenario_histories()
     nscen = len(hists) - ncorpus
-    n_rand, n_mal = (260, 40) if ctx.quick else (6000, 600)
+    n_rand, n_mal = (420, 60) if ctx.quick else (6000, 600)
     hists += [gen_history(r, r.choice([14, 20, 28, 36])) for _ in range(n_rand)]
     hists += [gen_malformed(r, r.choice([8, 16])) for _ in range(n_mal)]
     rc, outs, e = run_driver(exe, hists)
@@ -418,7 +418,7 @@ def run(ctx):
             if kind == "violation":
                 if reported < 3:
                     rep = shrink(ctx, exe, rep, known)
-                    ctx.violation(what, rep)
+                    ctx.violation(rep["what"], rep)
                     reported += 1
             else:
                 ctx.broken("correspondence:judge_hist", "history %d: %s; ops %s" % (hn, what, json.dumps(h)[:600]))
@@ -476,6 +476,7 @@ def shrink(ctx, exe, rep, known):
     rep["history"] = h
     if v is not None:
         rep["verdict"], rep["impl_trace"] = v, steps
+        rep["what"] = classify(v, known)[1] or rep["what"]
     return rep
 
 
